@@ -10,13 +10,14 @@ env=dict(os.environ, GOFLAGS='-mod=mod', GOPROXY='off', GOSUMDB='off', GOTOOLCHA
 assert subprocess.run(['git','-C','/repo','status','--porcelain','--untracked-files=no'],capture_output=True,text=True).stdout.strip()=='' , "/repo not clean"
 for i in ids:
     d=f'{V}/seeded/{i}'; meta=json.load(open(f'{d}/meta.json')); prop=meta['breaks_property']
-    if prop not in cmds:
+    props=[p for p in meta.get('checks_to_run',[prop]) if p in cmds]
+    if not props:
         print(i, 'no registered check for', prop); continue
     if subprocess.run(['git','-C','/repo','apply','--check',f'{d}/patch.diff']).returncode!=0:
         print(i,'PATCH DOES NOT APPLY'); meta['caught_by']=['patch no longer applies to /repo HEAD']; json.dump(meta,open(f'{d}/meta.json','w'),indent=1); continue
     subprocess.run(['git','-C','/repo','apply',f'{d}/patch.diff'],check=True)
     try:
-        r=subprocess.run(cmds[prop],shell=True,cwd=V,capture_output=True,text=True,env=env)
+        env["GOVC_NO_EVIDENCE"]="1"; r=subprocess.run(cmds[prop],shell=True,cwd=V,capture_output=True,text=True,env=env)
         viol=[l for l in r.stdout.split('\n') if l.startswith('VIOLATION')]
         meta['caught_by']=[{"check":prop,"exit":r.returncode,"violations":[v.split(' obligation=')[1] if ' obligation=' in v else v for v in viol][:12]}]
         print(i, 'exit',r.returncode, len(viol),'violation lines', (viol[0][:200] if viol else ''))
